@@ -136,11 +136,26 @@ class GuardFlow:
         self._multi_def_bools = self._find_merge_bools()
 
     def _find_merge_bools(self):
+        """bool locals whose value is tracked in the path state: those with several definitions (merge temps of `&&`,
+        `||`, `match`), and - transitively - plain copies of such locals (a helper's result handed on through its return
+        place when the helper has been spliced in)."""
         d = du(self.fn)
         out = set()
         for l, defs in d.defs.items():
             if self.fn.local_ty(l) == 'bool' and len([x for x in defs if x['kind'] in ('assign', 'call')]) > 1:
                 out.add(l)
+        changed = True
+        while changed:
+            changed = False
+            for l, defs in d.defs.items():
+                if l in out or self.fn.local_ty(l) != 'bool':
+                    continue
+                for x in defs:
+                    if x['kind'] == 'assign' and x['rv']['k'] == 'use' and x['rv']['op'].get('k') in ('copy', 'move') \
+                            and 'p' not in x['rv']['op']['pl'] and x['rv']['op']['pl']['l'] in out:
+                        out.add(l)
+                        changed = True
+                        break
         return out
 
     def cond_at(self, bb):
@@ -188,8 +203,13 @@ class GuardFlow:
                             st['A:%d' % pl['l']] = (a, c.positive)
                     else:
                         src = rv['op']
-                        if src['k'] in ('copy', 'move') and 'p' not in src['pl'] and ('L:%d' % src['pl']['l']) in st:
-                            st[key] = st['L:%d' % src['pl']['l']]
+                        if src['k'] in ('copy', 'move') and 'p' not in src['pl']:
+                            if ('L:%d' % src['pl']['l']) in st:
+                                st[key] = st['L:%d' % src['pl']['l']]
+                            elif ('A:%d' % src['pl']['l']) in st:
+                                st['A:%d' % pl['l']] = st['A:%d' % src['pl']['l']]
+                            elif src['pl']['l'] in self._multi_def_bools:
+                                st['A:%d' % pl['l']] = ('L:%d' % src['pl']['l'], True)
                 elif rv['k'] == 'unop' and rv['op'] == 'Not':
                     c = resolve_cond(self.prog, fn, rv['a'], self.tracer)
                     a = self.atom_for_cond(c)
